@@ -199,7 +199,39 @@ def scenario_sim(t):
     return {"scheduler": ctx.spec.describe(), "columns": cols, "trace": table, "exception": None if run.exception is None else repr(run.exception)}
 
 
-SCENARIOS = {"protocol": scenario_protocol, "sim": scenario_sim}
+def scenario_protocol_modelfree(t):
+    """model-free only (cheap): all families which iterate over containers of strings somewhere"""
+    spec, max_t, use_mra, n_workers = build(t, ["pbt", "pbt", "hb-pasha", "dehb", "rea", "sync-hb", "hb-promotion", "hb-stopping", "hb-cost", "median", "fifo-random", "fifo-grid"], gp=False)
+    S = spec.build()
+    tk = dp.make_time_keeper()
+    inner = getattr(S, "scheduler", S)
+    if hasattr(inner, "set_time_keeper"):
+        inner.set_time_keeper(tk)
+    curve = {}
+
+    def result_fn(tid, config, level):
+        return {"loss": curve.setdefault((tid, level), t.float(0.0, 1.0)), "cost": float(t.int(1, 3))}
+
+    def cap(config):
+        return int(config["epochs"]) if use_mra and "epochs" in config else max_t
+
+    d = dp.ProtocolDriver(S, t, result_fn, level_cap_fn=cap, n_workers=n_workers, max_trials=t.int(3, 8), max_steps=60, time_keeper=tk,
+                          allow_fail=t.chance(1, 4) and spec.family not in ("dehb", "sync-hb"))
+    try:
+        while d.step() is not None:
+            pass
+    except Violation as v:
+        return {"scheduler": spec.describe(), "trace": [_ev_key(e) for e in d.trace] + [["violation", v.kind]]}
+    return {"scheduler": spec.describe(), "trace": [_ev_key(e) for e in d.trace]}
+
+
+def scenario_batch(t):
+    """Several model-free scenarios in one process: the import cost of a child process is paid once."""
+    outs = [scenario_protocol_modelfree(t) for _ in range(8)]
+    return {"scheduler": {"family": "batch:" + "+".join(sorted({str(o["scheduler"].get("family")) for o in outs}))}, "trace": [[json.dumps(o, default=repr, sort_keys=True)] for o in outs]}
+
+
+SCENARIOS = {"protocol": scenario_protocol, "sim": scenario_sim, "batch": scenario_batch}
 
 
 def run_child(name, log, hashseed, gseed):
@@ -222,7 +254,7 @@ def run_child(name, log, hashseed, gseed):
 
 
 def case_fresh(t):
-    name = t.choice(["protocol", "sim"])
+    name = t.weighted([(1, "protocol"), (1, "sim"), (2, "batch")])
     pos = len(t.log)
     sub = Tape(data=t._data) if t._data is not None else None
     # run the scenario here once to obtain its tape (and, for model-free schedulers, the reference trace)
@@ -234,10 +266,15 @@ def case_fresh(t):
     o1 = run_child(name, log, h1, g1)
     o2 = run_child(name, log, h2, g2)
     fam = out["scheduler"].get("family")
-    labels = {name, str(fam), "hashseed-differs"}
+    labels = {name, "hashseed-differs"} | ({str(fam)} if name != "batch" else set(str(fam)[len("batch:"):].split("+")))
     if o1 != o2:
         a, b = json.loads(o1), json.loads(o2)
         k = next((i for i, (x, y) in enumerate(zip(a["trace"], b["trace"])) if x != y), min(len(a["trace"]), len(b["trace"])))
+        if name == "batch" and k < len(a["trace"]):
+            try:
+                fam = json.loads(a["trace"][k][0])["scheduler"].get("family")
+            except Exception:
+                fam = "batch"
         raise Violation(
             f"fresh-process-twins-differ:{name}:{fam}",
             f"{out['scheduler']}: PYTHONHASHSEED {h1} vs {h2}, global seeds {g1} vs {g2}: first difference at row {k}: {a['trace'][k] if k < len(a['trace']) else None} vs {b['trace'][k] if k < len(b['trace']) else None}",
@@ -249,5 +286,5 @@ def case_fresh(t):
 
 SUBCHECKS = {
     "twins": {"fn": case_twins, "quick": 16000, "thorough": 300000, "required": FAMILIES + ["interleaved-instance"]},
-    "fresh-process": {"fn": case_fresh, "quick": 48, "thorough": 800, "min_per_shard": 3, "required": ["protocol", "sim", "hashseed-differs"]},
+    "fresh-process": {"fn": case_fresh, "quick": 48, "thorough": 800, "min_per_shard": 3, "required": ["protocol", "sim", "batch", "pbt", "hashseed-differs"]},
 }
